@@ -48,6 +48,7 @@ Record preds := Preds {
   ct_html : bool; mime_html : bool;       (* "html" in Content-Type / in the MIME string *)
   ct_json : bool; mime_json : bool;
   ct_xml : bool; mime_xml : bool; mime_svg : bool;
+  ct_xhtml : bool;                        (* "application/xhtml+xml" in Content-Type *)
   ct_m3u8 : bool;
   mime_pdf : bool;
   ct_text : bool;                         (* "text/" in Content-Type *)
@@ -80,13 +81,17 @@ Definition is_json (v : view) (p : preds) : res bool := ct_or_mime v (ct_json p)
 Definition is_m3u8 (v : view) (p : preds) : res bool := _ <- resp v ;; Ok (ct_m3u8 p).
 (* defer URL.RewindBody(); xml.NewDecoder(URL.GetBody()) ... RawToken() *)
 Definition is_sitemap_xml (v : view) (p : preds) : res bool := _ <- body v ;; Ok (sitemap p).
-(* (ct || mime) && !IsSitemapXML(URL) && !URL.GetMIMEType().Is("image/svg+xml") *)
+(* if isContentType(ct, "application/xhtml+xml") { return false }
+   return (ct || mime) && !IsSitemapXML(URL) && !URL.GetMIMEType().Is("image/svg+xml") *)
 Definition is_xml (v : view) (p : preds) : res bool :=
-  a <- ct_or_mime v (ct_xml p) (mime_xml p) ;;
-  if a then
-    (s <- is_sitemap_xml v p ;;
-     if s then Ok false else (_ <- mime v ;; Ok (negb (mime_svg p))))
-  else Ok false.
+  _ <- resp v ;;
+  if ct_xhtml p then Ok false
+  else
+    a <- ct_or_mime v (ct_xml p) (mime_xml p) ;;
+    if a then
+      (s <- is_sitemap_xml v p ;;
+       if s then Ok false else (_ <- mime v ;; Ok (negb (mime_svg p))))
+    else Ok false.
 Definition is_pdf (v : view) (p : preds) : res bool := _ <- mime v ;; Ok (mime_pdf p).
 Definition is_s3 (v : view) (p : preds) : res bool := _ <- resp v ;; Ok (srv_s3 p).
 (* predicates on URL.String() *)
